@@ -71,6 +71,10 @@ func (e *Enc) callWithArgs(fr *Frame, st *State, c *ssa.CallCommon, in ssa.Instr
 	case *ssa.Builtin:
 		return e.builtin(fr, st, callee, c, args, pos)
 	case *ssa.Function:
+		if key := funcKey(callee); len(e.P.CS.Protects) > 0 && len(c.Args) > 0 &&
+			(key == "(*sync.Mutex).Unlock" || key == "(*sync.RWMutex).Unlock" || key == "(*sync.RWMutex).RUnlock") {
+			e.releaseProtected(fr, st, c.Args[0], pos)
+		}
 		res := e.staticCall(fr, st, callee, args, nil, pos)
 		if key := funcKey(callee); len(e.P.CS.Protects) > 0 && len(c.Args) > 0 &&
 			(key == "(*sync.Mutex).Lock" || key == "(*sync.RWMutex).Lock" || key == "(*sync.RWMutex).RLock") {
@@ -360,6 +364,9 @@ func (e *Enc) applyContract(fr *Frame, st *State, fc *FuncContract, sig *types.S
 	for _, en := range fc.Ensures {
 		if hasTag(en.Tags, "internal") {
 			continue // speaks about locals of the callee: proved in its body, not visible to callers
+		}
+		if hasTag(en.Tags, "trusted") {
+			e.assumedUsed[fc.Key+": trusted clause `"+strings.TrimSpace(en.Src)+"`"] = true
 		}
 		c, err := ec2.evalBool(en.Expr)
 		if err != nil {
@@ -1058,6 +1065,55 @@ func (e *Enc) funcTypeConversion(fr *Frame, st *State, in *ssa.ChangeType, x Val
 			}
 		}
 	}
+}
+
+// releaseProtected: the invariant that acquirers assume must hold when the mutex is released.
+func (e *Enc) releaseProtected(fr *Frame, st *State, recv ssa.Value, pos token.Pos) {
+	pds, self, selfT := e.protectsOf(fr, recv)
+	for _, pd := range pds {
+		if pd.Invariant == nil {
+			continue
+		}
+		bind := map[string]TV{"self": {Val: self, Ty: selfT}}
+		ec := &EvalCtx{e: e, st: st, old: st, bind: bind, spec: pd.Spec}
+		inv, err := ec.evalBool(pd.Invariant)
+		if err != nil {
+			e.failed = fmt.Errorf("%s:%d: protects invariant: %v", pd.File, pd.Line, err)
+			return
+		}
+		e.check(st, "lock", e.siteLabel(fr, "protected-invariant-restored", pos), inv, pos)
+	}
+}
+
+// protectsOf returns the protects declarations for the mutex field whose address is recv.
+func (e *Enc) protectsOf(fr *Frame, recv ssa.Value) ([]*ProtectsDecl, Val, types.Type) {
+	fa, ok := recv.(*ssa.FieldAddr)
+	if !ok {
+		return nil, Val{}, nil
+	}
+	pt, ok := fa.X.Type().Underlying().(*types.Pointer)
+	if !ok {
+		return nil, Val{}, nil
+	}
+	nt, ok := pt.Elem().(*types.Named)
+	if !ok || nt.Obj().Pkg() == nil {
+		return nil, Val{}, nil
+	}
+	key := nt.Obj().Pkg().Path() + "." + nt.Obj().Name()
+	fname := pt.Elem().Underlying().(*types.Struct).Field(fa.Field).Name()
+	self, ok := fr.vals[fa.X]
+	if !ok {
+		return nil, Val{}, nil
+	}
+	var out []*ProtectsDecl
+	for _, pd := range e.P.CS.Protects {
+		for _, alt := range strings.Split(pd.Field, "|") {
+			if alt == fname && pd.Type == key {
+				out = append(out, pd)
+			}
+		}
+	}
+	return out, self, fa.X.Type()
 }
 
 // acquireProtected: after acquiring mutex field m of an object x, the state declared as
